@@ -131,7 +131,31 @@ def execute(plan: dict, **kw: Any) -> dict:
         # moving what survived a full collection to the permanent generation so that the
         # per-run collection only ever looks at the previous run's leftovers
         gc.freeze()
-    return w.execute(plan, **kw)
+    from . import core
+
+    del core.LIVELOCKS[:]
+    try:
+        res = w.execute(plan, **kw)
+    except Exception:
+        if not core.LIVELOCKS:
+            raise
+        res = {
+            "violations": [], "faults": {}, "probes": {}, "sig": "livelock", "final": "livelock", "nontrivial": True,
+            "steps": 0, "vtime": 0.0, "deadlock": False, "step_limit": False, "digest": "livelock", "trace": [],
+        }
+    if core.LIVELOCKS:
+        # a step of the run never returned to the scheduler (see core._LivelockGuard)
+        ll = core.LIVELOCKS[0]
+        res["crashed"] = res.get("crashed") or f"livelock at step {ll['step']}"
+        res["violations"].append(
+            {
+                "rule": f"{plan['property']}.livelock",
+                "key": "no_progress",
+                "msg": f"a single scheduler step burnt >= {core.LIVELOCK_CPU_S}s of CPU without returning "
+                f"(step {ll['step']}): the run never terminates",
+            }
+        )
+    return res
 
 
 def relevant(viol: list[dict], prop: str) -> list[dict]:
